@@ -3,7 +3,7 @@
 set -e
 cd "$(dirname "$0")"
 mkdir -p _build
-cp model.ml model.mli util.ml *_drv.ml main.ml _build/
+cp model.ml model.mli util.ml sexp.ml cursor_drv.ml codec_drv.ml main.ml _build/
 cd _build
-ocamlfind ocamlopt -O2 -w -a -package str model.mli model.ml util.ml $(ls *_drv.ml) main.ml -o model_run 2>/dev/null || \
-ocamlfind ocamlopt -w -a model.mli model.ml util.ml $(ls *_drv.ml) main.ml -o model_run
+ocamlfind ocamlopt -O3 -w -a model.mli model.ml util.ml sexp.ml cursor_drv.ml codec_drv.ml main.ml -o model_run 2>/dev/null || \
+ocamlfind ocamlopt -w -a model.mli model.ml util.ml sexp.ml cursor_drv.ml codec_drv.ml main.ml -o model_run
